@@ -320,7 +320,9 @@ def check_splitting(ex, reg, src, name, m, separable=False):
     consts = st.new_obj("dict", "dict", items={})
     rhs = UFunc("rhs", "block", attrs=dict(nblocks=2))
     ctx = Ctx(fi, None, fi.cls, tag="ExplicitSymplecticIntegrator.step[%s]" % name)
+    ex.annihilations = []
     paths = ex.call_function(fi, [selfobj, rhs, t, y, consts, h], {}, st, ctx)
+    zeroed, ex.annihilations = ex.annihilations, None
     pre = "%s/symplectic-step[%s]/" % (PID, name)
     if len(paths) != 1 or isinstance(paths[0][1], Raised):
         reg.undecided(pre + "single-path", "unsupported", "step", "paths=%d" % len(paths))
@@ -337,6 +339,11 @@ def check_splitting(ex, reg, src, name, m, separable=False):
     reg.ground(pre + "composition-of-drift-and-kick", "post", "step", dS == acc and dT == h and dT2 == h, backend="lincomb-exact",
                detail="dState == fold over the %d table rows of (drift c_i h on the position block, kick d_i h on the momentum block), stage time t + h*sum_{j<i} c_j" % n)
     reg.ground(pre + "stale-dState-unread", "frame", "step", not has_stale(dS), backend="lincomb-exact", detail="`self.dState *= 0.0` clears the previous step's increment")
+    # ... and on the float side (below A1): the buffer an earlier call left may hold inf / nan (an overflowing or undefined right-hand side in
+    # a rejected or aborted attempt); `x * 0` keeps them, so the old increment must be discarded by a store, not by arithmetic on it
+    bad = [ln for x, ln in zeroed if (has_stale(x) if isinstance(x, LinComb) else any(has_stale(b_) for b_ in getattr(x, "blocks", getattr(x, "items", []))))]
+    reg.ground(pre + "stale-dState-discarded-not-multiplied-by-zero", "frame", "step", not bad, backend="symbolic-exec (dataflow)",
+               detail="lines where a value left by an earlier call is multiplied by the constant 0 (nan * 0 = nan: a non-finite entry survives into this step): %s" % (bad or "none"))
     return dS
 
 
